@@ -346,7 +346,12 @@ class Extractor:
             op = BINOPS.get(type(e.op))
             if op is None:
                 raise Unsupported(f"operator {type(e.op).__name__}")
-            return binop(op, self.ev(e.left, env), self.ev(e.right, env))
+            l, r = self.ev(e.left, env), self.ev(e.right, env)
+            if op == "*":
+                for d, k in ((l, r), (r, l)):
+                    if d[0] == "tuple" and k[0] == "num" and isinstance(k[1], int) and not isinstance(k[1], bool) and 0 <= k[1] <= 8 and len(d[1]) * k[1] <= 16:
+                        return ("tuple", tuple(d[1]) * k[1])        # (x,) * 3 is (x, x, x): terms are values, repeating one repeats nothing that runs
+            return binop(op, l, r)
         if isinstance(e, ast.Compare):
             parts = []
             left = self.ev(e.left, env)
